@@ -103,7 +103,7 @@ impl Tr {
     pub fn func(&self, f: Func, b: &Basis) -> Tr {
         let d = b.max_deg;
         let g = taylor::taylor(f, self.re(), d + 2);
-        let mut gm = taylor::majorant(f, self.re(), &g);
+        let mut gm = taylor::majorant_depth(f, self.re(), &g, b.shape.depth());
         // integer and real powers go through x^(n-3) * x * x * x and a repeated-squaring powi:
         // charge the extra roundings
         let extra = match f {
